@@ -142,4 +142,10 @@ def selectSource (sh : Shape) : R (Option Nat) := do
   | some k => pure (allIdx sh k)
   | none => pure none
 
+/-- `render_enum`: a match arm is generated for the enabled variants only (a variant is disabled
+by `#[error(ignore)]` on the variant); a disabled variant's fields and their attributes are not
+looked at, and its values reach the catch-all `_ => None` arm. -/
+def variantSource (variantIgnored : Bool) (sh : Shape) : R (Option Nat) :=
+  if variantIgnored then pure none else selectSource sh
+
 end Dm.Err
